@@ -253,6 +253,29 @@ def native_live(run, P, Q, delay, stop_after=None):
     finally:
         srv.stop()
 
+def native_period(run, P, Q):
+    """real server, real clock: a client answering at once must see PINGs at P, 2P, 3P after its registration"""
+    import time as _t
+    from mirsym import ircreplay as R
+    from mirsym.world import Spec
+    exe = run.snap.build_server(False)
+    srv = R.Server(exe, R.make_config(Spec(ping_timeout=P, pong_timeout=Q), {}, {}, None), run.snap.dir, tag='period')
+    try:
+        c = R.Client(srv.port, 'per')
+        c.send('NICK per'); c.send('USER per 0 * :Per')
+        c.barrier()
+        t0 = _t.time(); seen = []
+        while _t.time() - t0 < 3 * P + 1.5 and len(seen) < 3 and not c.eof:
+            for l in c._read_lines(0.05):
+                if b' PING ' in l or l.startswith(b'PING'):
+                    seen.append(round(_t.time() - t0, 2)); c.send('PONG :LALAL')
+        c.close()
+        want = [P * (i + 1) for i in range(3)]
+        bad = len(seen) < 3 or any(abs(a - b) > 0.8 for a, b in zip(seen, want))
+        return bad, f'P={P} Q={Q}: PINGs seen {seen} s after registration, expected about {want}'
+    finally:
+        srv.stop()
+
 def native_timer(run, P, Q, rounds=1):
     """real server, real clock: a silent client must be dropped about Q seconds after its first PING"""
     import time as _t
@@ -280,6 +303,7 @@ def native_timer(run, P, Q, rounds=1):
         srv.stop()
 
 def native_replay(run, rp):
+    if rp.get('kind') == 'period': return native_period(run, rp['P'], rp['Q'])
     if rp.get('kind') == 'live': return native_live(run, rp['P'], rp['Q'], rp['delay'], rp.get('stop_after'))
     return native_timer(run, rp['P'], rp['Q'])
 
@@ -318,6 +342,16 @@ def confirm(run, cands):
                 okk, text = None, 'native timer run failed: ' + repr(e)[:300]
             fi.confirmed = True if okk else None; fi.native = text
             fi.replay = dict(kind='timer', P=P, Q=Q)
+            if okk: run.native_replays += 1
+        elif f['site'].startswith(('keepalive:period', 'keepalive:ping')):
+            reg = f.get('predicate', '').split('|')[-1]
+            P, Q = {'Q<P': (2, 1), 'Q=P': (2, 2), 'P<Q<2P': (2, 3), 'Q=2P': (1, 2), '2P<Q<3P': (2, 5)}.get(reg, (2, 2))
+            try:
+                okk, text = native_period(run, P, Q)
+            except Exception as e:
+                okk, text = None, 'native run failed: ' + repr(e)[:300]
+            fi.confirmed = True if okk else None; fi.native = text
+            fi.replay = dict(kind='period', P=P, Q=Q)
             if okk: run.native_replays += 1
         elif f['site'].startswith('keepalive:live-peer'):
             reg = f.get('predicate', '').split('|')[-1]
